@@ -19,7 +19,7 @@ import props  # noqa: E402
 import smt_run  # noqa: E402
 
 
-DEFAULT_STUBS = {"alloc::fmt::format", "tracing::level_filters::LevelFilter::current", "tracing::Event::dispatch",
+DEFAULT_STUBS = {"alloc::fmt::format", "core::result::unwrap_failed", "tracing::level_filters::LevelFilter::current", "tracing::Event::dispatch",
                  "tracing::__macro_support::__is_enabled", "tracing::callsite::DefaultCallsite::interest"}
 
 
